@@ -333,7 +333,8 @@ class Evaluator:
         if name in self.env:
             return self.env[name]
         m = self.model
-        if name in TIME_NAMES and not (m and (name in m.assigns)):
+        declared = m is not None and (name in m.assigns or name in m.states or name in m.params)
+        if name in TIME_NAMES and not declared:
             return self.ctx.inp("t")
         if m is not None:
             if name in m.states:
